@@ -4,6 +4,9 @@ seeded/*/meta.json and seeded/RESULTS.md."""
 import json, glob, os, re
 
 NOTES = {
+ "C19-12": "missed at first (needs a decision pending ahead of the cheque and a fourth, late vote: depth 6): seventh ledger exploration neofs-gas-legacy-n4-votes over the vote-collected decisions only, depth 7",
+ "C04-11": "missed at first: a container whose length byte in front of the owner is 128",
+ "C03-12": "ended as a harness error at first (Container could not be deployed on an even committee): a refused deployment during base-state preparation is the '... succeeds' clause failing, as a refused invocation already was",
  "C05-11": "missed at first: history 'the same container put again' added",
  "C20-9": "missed at first (needs 128 values for one (epoch, peer)): a bulk operation of 130 puts added",
  "C01-9": "missed at first (needs depth 5 from the empty state): second exploration balance-emptied-accounts with a small alphabet, depth 6",
